@@ -378,6 +378,7 @@ static Value *locate(Doc &d, const Rend &R, const Tok &t) {
 // position labels for a token of the un-edited rendering
 static void pos_labels(const Rend &R, const Doc &d, int ti, Plan &P, bool at_end = false) {
     const Tok &t = R.t[(size_t) std::min<size_t>((size_t) ti, R.t.size() - 1)];
+    if (ti == 0) P.pos.push_back("first-line");
     if (t.cont >= 0) {
         const Cont &c = R.conts[(size_t) t.cont];
         if (c.frm >= 0) P.pos.push_back("frame");
@@ -1150,9 +1151,9 @@ static const std::vector<Row> &table() {
         {"dup-loop-name-same-header", 2, [](Work &w, Env &e, Plan &p) { return p_dup_loop_name(w, e, p, true); }, false},
         {"dup-block", 2, p_dup_block, false},
         {"dup-frame", 2, p_dup_frame, false},
-        {"invalid-block-long", 1, [](Work &w, Env &e, Plan &p) { return p_invalid_code(w, e, p, false, true); }, false},
+        {"invalid-block-long", 2, [](Work &w, Env &e, Plan &p) { return p_invalid_code(w, e, p, false, true); }, false},
         {"invalid-block-char", 2, [](Work &w, Env &e, Plan &p) { return p_invalid_code(w, e, p, false, false); }, false},
-        {"invalid-frame-long", 1, [](Work &w, Env &e, Plan &p) { return p_invalid_code(w, e, p, true, true); }, false},
+        {"invalid-frame-long", 2, [](Work &w, Env &e, Plan &p) { return p_invalid_code(w, e, p, true, true); }, false},
         {"invalid-frame-char", 2, [](Work &w, Env &e, Plan &p) { return p_invalid_code(w, e, p, true, false); }, false},
         {"no-block-header", 2, p_no_block_header, false},
         {"partial-packet", 3, p_partial_packet, false},
